@@ -360,6 +360,12 @@ class C03(FsScenario):
         # a third of the runs also operate on entries that have left the tree (phantom events)
         return OUT_WEIGHTS if cfg.random() < 0.33 else None
 
+    def tweak(self, case, rng, cfg):
+        if rng.random() < 0.1:
+            # the history ends with the deletion of the watched root (contract: one DirDeleted(root), nothing outside the scope)
+            case["ops"].append(["drain"])
+            case["ops"].append(["rmroot"])
+
     def judge(self, run, res, sim, verdict):
         v = generic_violations("C03", sim, verdict, res)
         if not res.get("done"):
@@ -479,6 +485,8 @@ class C07(FsScenario):
                 v.append(Violation("root-deleted", "C07:threads-alive-after-root-deleted:" + ",".join(sorted({n.split('#')[0] for n in res["alive_after_rmroot"]})), f"{res['alive_after_rmroot']}"))
             if res["events_after_rmroot"]:
                 v.append(Violation("root-deleted", "C07:events-after-root-deleted", f"{res['events_after_rmroot'][:5]}"))
+            if res.get("open_fds"):
+                v.append(Violation("root-deleted", "C07:descriptors-open-after-root-deleted-and-stop", f"{res['open_fds']}"))
         return v
 
 
